@@ -49,6 +49,7 @@ type traceEvent struct {
 	P   [][]interface{} `json:"p"`
 	Q   [][]interface{} `json:"q"`
 	L   []int           `json:"l"`
+	PN  []int           `json:"pn"` // pool.Nonce(addr) per account
 }
 
 func tuples(x []Tx) [][]interface{} {
@@ -119,7 +120,7 @@ func TestRecord(t *testing.T) {
 			s.close()
 			return
 		}
-		enc.Encode(traceEvent{Op: "new", Acc: 1, Res: "ok", P: tuples(prev.P), Q: tuples(prev.Q), L: append([]int{}, prev.L...), S: []int{}})
+		enc.Encode(traceEvent{Op: "new", Acc: 1, Res: "ok", P: tuples(prev.P), Q: tuples(prev.Q), L: append([]int{}, prev.L...), S: []int{}, PN: append([]int{}, prev.N...)})
 		events++
 		var hist []interface{}
 		nontriv := false
@@ -210,7 +211,7 @@ func TestRecord(t *testing.T) {
 				break
 			}
 			ev := traceEvent{Op: st.Op, N: st.N, B: st.B, G: st.G, A: st.A, F: st.F, S: append([]int{}, st.S...), Acc: accOf(st.Op, got), Res: got,
-				P: tuples(o.P), Q: tuples(o.Q), L: append([]int{}, o.L...)}
+				P: tuples(o.P), Q: tuples(o.Q), L: append([]int{}, o.L...), PN: append([]int{}, o.N...)}
 			switch st.Op {
 			case "ar", "al", "xr", "xl":
 				ev.T = st.T.tuple()
